@@ -275,3 +275,66 @@ def render_abbr(nodes):
                 s = '%s>%s' % (s, inner)
         parts.append(s)
     return '+'.join(parts)
+
+
+# ---------------------------------------------------------------------------------------------
+# driver: like common.run_parallel, but the violations that are *kept* do not depend on the order in which the
+# pool delivers chunks: all are collected, sorted (shortest input first) and at most `per_signature` are kept per
+# failure signature (exception type + message, or the shape of the mismatch report), `total` overall.  This only
+# concerns reporting; what counts as a violation is decided by the check function alone.
+
+_RE_QUOTED = re.compile(r"'(?:[^'\\]|\\.)*'|\"(?:[^\"\\]|\\.)*\"")
+
+
+def failure_signature(what):
+    if ' raised ' in what:
+        s = what.split(' raised ', 1)[1]
+        s = s.split(' (', 1)[0]
+        return 'raised ' + re.sub(r'\d+', 'N', _RE_QUOTED.sub('S', s))[:60]
+    s = re.sub(r'\d+', 'N', _RE_QUOTED.sub('S', what))
+    return s[-60:]
+
+
+def run_parallel_sorted(clause, modname, fname, cases, chunk=2000, per_signature=12, total=50):
+    import multiprocessing as mp
+    from .common import _worker, chunked, NPROC
+    func_name = '%s:%s' % (modname, fname)
+    by_sig = {}
+    count = 0
+    with mp.Pool(NPROC) as pool:
+        jobs = ((modname, fname, c) for c in chunked(cases, chunk))
+        for n, hashes, out in pool.imap_unordered(_worker, jobs):
+            clause.evaluations += n
+            clause.distinct.update(hashes)
+            for key, what, args in out:
+                count += 1
+                lst = by_sig.setdefault(failure_signature(what), [])
+                lst.append((len(key), key, what, args))
+                if len(lst) > 40 * per_signature:
+                    lst.sort()
+                    del lst[per_signature:]
+    kept = []
+    for sig in sorted(by_sig):
+        lst = sorted(by_sig[sig])[:per_signature]
+        kept.extend(lst)
+    kept.sort()
+    # round-robin over signatures so that `total` does not starve a rare signature
+    if len(kept) > total:
+        order = []
+        pools = {sig: sorted(by_sig[sig])[:per_signature] for sig in sorted(by_sig)}
+        i = 0
+        while len(order) < total and any(pools.values()):
+            for sig in sorted(pools):
+                if i < len(pools[sig]) and len(order) < total:
+                    order.append(pools[sig][i])
+            i += 1
+            if i > per_signature:
+                break
+        kept = sorted(order)
+    for _, key, what, args in kept:
+        clause.violation(key, what, func_name, args)
+    clause.violations_found = count
+    if count > len(kept):
+        clause.bound += ' [%d violating cases found, %d kept: <= %d per failure signature, shortest inputs first]' % (
+            count, len(kept), per_signature)
+    return clause
